@@ -217,4 +217,119 @@ theorem decode_encode_spec (b : Bytes) :
 theorem decode_encode (b : Bytes) : Model.Base58.decode (Model.Base58.encode b) = b := by
   rw [encode_spec, decode_spec, decode_encode_spec]; rfl
 
+
+/-! ### encode ∘ decode = id on every string that decodes (so decoding is injective) -/
+
+theorem alph_zero : alph 0 = c1 := by decide
+
+theorem value_append (a l : Bytes) : value? (a ++ l) = l.foldl step (value? a) := by
+  simp [value?, List.foldl_append]
+
+theorem value_ones_append (z : Nat) (l : Bytes) : value? (List.replicate z c1 ++ l) = value? l := by
+  rw [value_append, value_ones]; rfl
+
+theorem msd_eq_nil {v : Nat} (h : msd v = []) : v = 0 := by
+  by_cases hv : v = 0
+  · exact hv
+  · rw [msd_pos hv] at h; simp at h
+
+/-- a string without a leading '1' is the digit string of its value -/
+theorem msd_value (l : Bytes) : ∀ v, l.head? ≠ some c1 → value? l = some v → msd v = l := by
+  induction l using List.reverseRecOn with
+  | nil => intro v _ hv; cases hv; exact msd_zero
+  | append_singleton l' c ih =>
+    intro v hh hv
+    rw [value_snoc] at hv
+    cases ha : value? l' with
+    | none => rw [ha] at hv; simp [step] at hv
+    | some a =>
+      cases hc : charDigit? c with
+      | none => rw [ha] at hv; simp [step, hc] at hv
+      | some dg =>
+        rw [ha] at hv
+        simp only [step, hc, Option.some.injEq] at hv
+        obtain ⟨hdlt, hdc⟩ := charDigit_some hc
+        cases l' with
+        | nil =>
+          have ha0 : a = 0 := by cases ha; rfl
+          have hdg : dg ≠ 0 := by
+            intro h0; subst h0
+            apply hh; rw [← hdc, alph_zero]; rfl
+          subst ha0
+          have hv' : v = dg := by omega
+          subst hv'
+          rw [msd_pos hdg]
+          have : v / 58 = 0 := by omega
+          rw [this, msd_zero, Nat.mod_eq_of_lt hdlt, hdc]
+        | cons x xs =>
+          have hh' : (x :: xs).head? ≠ some c1 := by simpa using hh
+          have hm := ih a hh' ha
+          have ha0 : a ≠ 0 := by
+            intro h0; subst h0; rw [msd_zero] at hm; cases hm
+          have hv0 : v ≠ 0 := by omega
+          rw [msd_pos hv0]
+          have h1 : v / 58 = a := by omega
+          have h2 : v % 58 = dg := by omega
+          rw [h1, h2, hm, hdc]
+
+theorem takeWhile_c1_eq_replicate (s : Bytes) :
+    s.takeWhile (· = c1) = List.replicate (s.takeWhile (· = c1)).length c1 := by
+  apply List.eq_replicate_iff.mpr
+  refine ⟨rfl, ?_⟩
+  intro x hx
+  have := mem_takeWhile hx
+  simpa using this
+
+theorem dropWhile_head {α} (p : α → Bool) (l : List α) : ∀ x, (l.dropWhile p).head? = some x → p x = false := by
+  induction l with
+  | nil => intro x h; simp at h
+  | cons a l ih =>
+    intro x h
+    rw [List.dropWhile_cons] at h
+    by_cases ha : p a = true
+    · simp only [ha, if_true] at h; exact ih x h
+    · simp only [ha] at h
+      simp at h; subst h; simpa using ha
+
+/-- spec level: a string that decodes is the encoding of what it decodes to -/
+theorem encode_decode_spec (s d : Bytes) (h : Spec.Bip32.Base58.decode? s = some d) :
+    Spec.Bip32.Base58.encode d = s := by
+  unfold Spec.Bip32.Base58.decode? at h
+  cases hv : value? s with
+  | none => rw [hv] at h; cases h
+  | some v =>
+    rw [hv] at h
+    simp only [Option.some.injEq] at h
+    have hc : (49 : UInt8) = c1 := rfl
+    rw [hc] at h
+    subst h
+    -- s = ones ++ rest
+    have hs : s = List.replicate (s.takeWhile (· = c1)).length c1 ++ s.dropWhile (· = c1) := by
+      conv => lhs; rw [← List.takeWhile_append_dropWhile (p := (· = c1)) (l := s)]
+      rw [← takeWhile_c1_eq_replicate]
+    have hrest : (s.dropWhile (· = c1)).head? ≠ some c1 := by
+      intro hh
+      have := dropWhile_head (· = c1) s c1 hh
+      simp at this
+    have hvr : value? (s.dropWhile (· = c1)) = some v := by
+      rw [hs, value_ones_append] at hv; exact hv
+    have hmsd := msd_value _ v hrest hvr
+    -- leading zeros and value of the decoded bytes
+    have htw : (List.replicate (s.takeWhile (· = c1)).length (0 : UInt8) ++ BE.toBytes v).takeWhile (· = 0)
+        = List.replicate (s.takeWhile (· = c1)).length 0 := by
+      apply takeWhile_replicate_append
+      · simp
+      · intro x hx
+        have := BE.toBytes_head_ne_zero v
+        rw [hx] at this
+        simpa using this
+    unfold Spec.Bip32.Base58.encode
+    rw [htw, BE.ofBytes_zeros_append, BE.ofBytes_toBytes, digits_eq, hmsd, List.length_replicate, hc]
+    exact hs.symm
+
+/-- decoding is injective on the strings it accepts -/
+theorem decode_injective (s s' d : Bytes) (h : Spec.Bip32.Base58.decode? s = some d)
+    (h' : Spec.Bip32.Base58.decode? s' = some d) : s = s' := by
+  rw [← encode_decode_spec s d h, ← encode_decode_spec s' d h']
+
 end MW.Base58L
